@@ -31,7 +31,7 @@ func init() {
 	core.Register(&core.Prop{
 		ID:    "C17",
 		Level: "exploration",
-		Rule: "built with -race. For each shared-object kind (type-1, type-2, type-3, type-5 issuer, generic batch issuer, *ecdsa.PrivateKey/PublicKey, ed25519.PrivateKey) a FRESH object (fresh VOPRF key object, so lazily initialised state is untouched) is used by G goroutines released from a barrier, each running a seeded mix of Evaluate/EvaluateBatch/Verify/TokenKeyID/TokenKey/Sign/Verify/Blind* with its own arguments (the ECDSA kinds use keys on two to four different curves at the same moment, the burst kind signs 40 digests back to back per goroutine); repeated R times per kind, kinds rotated over worker processes so that package-level sync.Once state is first touched concurrently. " +
+		Rule: "built with -race. For each shared-object kind (type-1, type-2, type-3, type-5 issuer, generic batch issuer, *ecdsa.PrivateKey/PublicKey, ed25519.PrivateKey) a FRESH object (fresh VOPRF key object, so lazily initialised state is untouched) is used by G goroutines released from a barrier, each running a seeded mix of Evaluate/EvaluateBatch/Verify/TokenKeyID/TokenKey/Sign/Verify/Blind* with its own arguments (the ECDSA kinds use keys on two to four different curves at the same moment, the burst kind signs 150 digests back to back per goroutine on three curves); repeated R times per kind, kinds rotated over worker processes so that package-level sync.Once state is first touched concurrently. " +
 			"Oracle: zero race-detector reports (GORACE log, de-duplicated by the outermost pat-go frames of both stacks) and every call's result satisfies its sequential oracle (responses finalize under the caller's own request state to a token valid under the reference verifier, Verify verdicts as expected for valid and bit-flipped tokens, key ids equal the value computed on a second object, signatures verify under the standard library, blinded keys equal the sequential result). " +
 			"distinct_nontrivial = fresh objects on which at least two goroutines were observed inside pat-go at the same time (atomic in-flight counter)",
 		Floors:      []string{"objects_with_overlap", "evaluate_results_ok", "verify_results_ok", "keyid_results_ok", "sign_results_ok", "blind_results_ok", "batch_results_ok", "kind_type1", "kind_type2", "kind_type3", "kind_type5", "kind_batch", "kind_ecdsa", "kind_ecdsa-burst", "kind_ed25519"},
@@ -658,19 +658,19 @@ func c17ECDSA(run *c17Run, G int, seeds [][]byte, rep int) {
 	})
 }
 
-// c17ECDSABurst: four curves, three goroutines per curve sharing that curve's key, each signing a burst of
+// c17ECDSABurst: three curves (the cheaper ones, for density), four goroutines per curve sharing that curve's key, each signing a burst of
 // digests back to back; every signature must verify under crypto/ecdsa. Dense signing on several curves at
 // once is what exposes unsynchronised or check-then-act package-level state keyed by curve.
 func c17ECDSABurst(run *c17Run, seeds [][]byte, rep int) {
 	c := run.c
-	const perCurve, burst = 3, 40
+	const perCurve, burst = 4, 150
 	type ck struct {
 		curve  elliptic.Curve
 		key    *ecdsa.PrivateKey
 		px, py *big.Int
 	}
 	var keys []*ck
-	for ci, curve := range c12Curves() {
+	for ci, curve := range []elliptic.Curve{elliptic.P224(), elliptic.P256(), elliptic.P384()} {
 		N := curve.Params().N
 		kr := core.NewRand(int64(rep*11+ci), "c17burst")
 		d := ScalarBytes(kr, N, (N.BitLen()+7)/8)
